@@ -642,9 +642,13 @@ def run(rep):
     bths = [threading.Thread(target=_build, args=(prof,)) for prof in PROFILES]
     for t in bths:
         t.start()
-    po = common.proof_obligations(PROP_FILES)
+    # translator: duration_from_parts and the Duration / Utc read / build of std_conv.rs are regenerated from the source;
+    # Properties/C10Gen.v proves them equal to Model/NetInput.v
+    import rust2coq
+    translator, gen_files = rust2coq.step(["std_conv"], ["theories/Properties/C10Gen.v"], broken)
+    po = common.proof_obligations(PROP_FILES + gen_files)
     if not po["ok"]:
-        broken.append("Coq obligations of Properties/C10.v: " + (po["log_tail"] or str(po["hygiene_problems"] or po["bad_axioms"])))
+        broken.append("Coq obligations of Properties/C10.v" + (", C10Gen.v" if gen_files else "") + ": " + (po["log_tail"] or str(po["hygiene_problems"] or po["bad_axioms"])))
     t_proofs = time.time() - t0
     marks = {'proofs': round(t_proofs, 1)}
 
@@ -931,8 +935,8 @@ def run(rep):
         "trusted_base": common.standard_trusted_base([
             "lexical panic-site extractor gen/panic_sites.py (over-approximate; classification of each site is by hand in corpus/C10_inventory.json)",
             "prost / prost-reflect / quick-protobuf, snow, blst, tokio, time: not modelled, only exercised by the fuzz",
-            "the counting global allocator of the harness (heap growth measurement)"]),
-        "theorems": po["theorems"], "axioms": po["axioms"],
+            "the counting global allocator of the harness (heap growth measurement)"] + translator["trusted"]),
+        "theorems": po["theorems"], "axioms": po["axioms"], "translator": translator,
         "evaluations": len(dcases) * len(PROFILES) + len(coq_cases) + headers_run + len(ncases) * len(PROFILES) + len(corpus) * len(PROFILES),
         "distinct_nontrivial": len(distinct) + len({c[1] for c in coq_cases}) + len(sweep_cases),
         "rule": "decode fuzz: for every registered decoder (all public ProtoFmt types of zksync_protobuf/roles + the network crate's private wire types through verif::decode_named) "
